@@ -181,6 +181,23 @@ theorem routes_commute (t : Tbs) (es : List Ext) (i j : Nat) (pc sc : Bool) (pv 
     simp only [buildPrecertTBS, h1, parseTbs_marshal _ hw1]
   exact ⟨by rw [this, h2], this⟩
 
+/-- The same for **all positions at once**: whether the two inputs are canonical does not depend on where the poison / the SCT
+list sits (`wf_insertAt`), so it is enough to know it for one position. -/
+theorem routes_commute_all (t : Tbs) (es : List Ext) (pc sc : Bool) (pv sv : Bytes)
+    (hnp : hasOid poisonOid es = false) (hns : hasOid sctOid es = false)
+    (hwp : (t.withExts (⟨poisonOid, pc, pv⟩ :: es)).wf = true)
+    (hws : (t.withExts (⟨sctOid, sc, sv⟩ :: es)).wf = true) (i j : Nat) :
+    buildPrecertTBS (marshalTbs (t.withExts (insertAt es i ⟨poisonOid, pc, pv⟩))) none
+      = removeExt sctOid (marshalTbs (t.withExts (insertAt es j ⟨sctOid, sc, sv⟩))) :=
+  (routes_commute t es i j pc sc pv sv hnp hns (by rw [wf_insertAt]; exact hwp) (by rw [wf_insertAt]; exact hws)).1
+
+/-- every position of the poison against every position of the SCT list, on a concrete certificate with two other extensions -/
+example (i j : Nat) :
+    buildPrecertTBS (marshalTbs (exBase.withExts (insertAt [exKU, exAKI] i exPoison))) none
+      = removeExt sctOid (marshalTbs (exBase.withExts (insertAt [exKU, exAKI] j exSct))) :=
+  routes_commute_all exBase [exKU, exAKI] true false _ _ (by decide) (by decide)
+    (by set_option maxRecDepth 100000 in decide) (by set_option maxRecDepth 100000 in decide) i j
+
 /-- poison in front, SCT list at the end, one other extension -/
 example : (exBase.withExts (insertAt [exKU] 0 exPoison)).wf = true ∧ (exBase.withExts (insertAt [exKU] 1 exSct)).wf = true ∧
     hasOid poisonOid [exKU] = false ∧ hasOid sctOid [exKU] = false ∧
@@ -329,6 +346,17 @@ theorem routes_commute_preissuer (c : Tbs) (p : PreIssuer) (piName : Tlv) (pe fe
     simp [preIssuerEdit, Tbs.withExts, akiUpdate_rel hrel]
   exact ⟨by rw [this, h2], this⟩
 
+/-- … for all positions at once -/
+theorem routes_commute_preissuer_all (c : Tbs) (p : PreIssuer) (piName : Tlv) (pe fe : List Ext)
+    (pc sc : Bool) (pv sv : Bytes) (hEku : p.ctEku = true) (hrel : AkiRel p.aki pe fe)
+    (hnp : hasOid poisonOid pe = false) (hns : hasOid sctOid fe = false)
+    (hwp : (({ c with issuer := piName } : Tbs).withExts (⟨poisonOid, pc, pv⟩ :: pe)).wf = true)
+    (hws : (({ c with issuer := p.issuer } : Tbs).withExts (⟨sctOid, sc, sv⟩ :: fe)).wf = true) (i j : Nat) :
+    buildPrecertTBS (marshalTbs (({ c with issuer := piName } : Tbs).withExts (insertAt pe i ⟨poisonOid, pc, pv⟩))) (some p)
+      = removeExt sctOid (marshalTbs (({ c with issuer := p.issuer } : Tbs).withExts (insertAt fe j ⟨sctOid, sc, sv⟩))) :=
+  (routes_commute_preissuer c p piName pe fe i j pc sc pv sv hEku hrel hnp hns
+    (by rw [wf_insertAt]; exact hwp) (by rw [wf_insertAt]; exact hws)).1
+
 /-- replace case: precertificate issued by the pre-issuer (issuer name `30 02 31 01`… here `30 00`-style stand-in, AKI key id 07),
 final certificate issued by the pre-issuer's issuer (AKI key id 09) -/
 example :
@@ -383,13 +411,14 @@ example : leafFromPrecertChain (marshalTbs (exBase.withExts [exPoison, exKU])) [
 
 /-! ## `sctlist_roundtrip` -/
 
-/-- **The SCT list read back equals the list embedded, element for element.** For the regenerated limits: whatever
+/-- **The SCT list read back equals the list embedded, element for element** — for any limits whose length prefixes are two
+bytes wide (RFC 6962 §3.3: `opaque SerializedSCT<1..2^16-1>`, `SignedCertificateTimestampList<1..2^16-1>`): whatever
 `ASN1MarshalSCTs` / `tls.Marshal(SignedCertificateTimestampList)` + `asn1.Marshal` writes as the extension value, the
 certificate parser reads back as exactly the same list of `SerializedSCT`s. -/
-theorem sctlist_roundtrip (l : List Bytes) (v : Bytes) (h : sctExtValue genLim l = some v) : parseSctExtValue genLim v = some l := by
-  obtain ⟨_, hi, _, hl⟩ := genLim_two_byte_prefixes
+theorem sctlist_roundtrip_lim (lim : SctLimits) (hi : lim.itemMax < 65536) (hl : lim.listMax < 65536)
+    (l : List Bytes) (v : Bytes) (h : sctExtValue lim l = some v) : parseSctExtValue lim v = some l := by
   simp only [sctExtValue, marshalSctList] at h
-  cases he : encSctItems genLim l with
+  cases he : encSctItems lim l with
   | none => simp [he] at h
   | some b =>
     simp only [he] at h
@@ -407,9 +436,58 @@ theorem sctlist_roundtrip (l : List Bytes) (v : Bytes) (h : sctExtValue genLim l
       have hd : beDec (beEnc 2 b.length) = b.length := beDec_beEnc 2 _ (by simpa using hb')
       rw [t2, d2, hd]
       have c1 : ¬ (beEnc 2 b.length ++ b).length < 2 := by simp [h2]
-      have c2 : ¬ (b.length < genLim.listMin ∨ genLim.listMax < b.length) := hb
+      have c2 : ¬ (b.length < lim.listMin ∨ lim.listMax < b.length) := hb
       simp only [c1, c2, if_false, ne_eq, not_true_eq_false]
-      exact encSctItems_parse genLim hi l b b.length he (Nat.le_refl _)
+      exact encSctItems_parse lim hi l b b.length he (Nat.le_refl _)
+
+/-- the limits RFC 6962 §3.3 gives -/
+def rfcLim : SctLimits := ⟨1, 65535, 1, 65535⟩
+
+/- FULL: `∀ l v, sctExtValue rfcLim l = some v → parseSctExtValue genLim v = some l` — every list RFC 6962 allows is read back.
+   With the tree's `maxlen:65335` on `SignedCertificateTimestampList.SCTList` this holds only for lists of at most
+   `Gen.sctListMax` bytes (`sctlist_roundtrip` below, stated for the regenerated limits); lists of 65336..65535 bytes are
+   refused by marshaller and parser alike — known finding C03-1 (fixes/C03-1.diff makes `genLim = rfcLim`, after which
+   `sctlist_roundtrip` *is* the full statement). -/
+/-- the instance for the limits the code has today (regenerated from the struct tags) -/
+theorem sctlist_roundtrip (l : List Bytes) (v : Bytes) (h : sctExtValue genLim l = some v) : parseSctExtValue genLim v = some l := by
+  obtain ⟨_, hi, _, hl⟩ := genLim_two_byte_prefixes
+  exact sctlist_roundtrip_lim genLim hi hl l v h
+
+/-- what the code embeds is what RFC 6962 embeds: whenever the code's marshaller succeeds it writes the RFC encoding -/
+theorem sctlist_code_is_rfc (l : List Bytes) (v : Bytes) (h : sctExtValue genLim l = some v) : sctExtValue rfcLim l = some v := by
+  have hg : genLim.itemMin = 1 ∧ genLim.listMin = 1 ∧ genLim.itemMax ≤ 65535 ∧ genLim.listMax ≤ 65535 := by decide
+  obtain ⟨g1, g2, g3, g4⟩ := hg
+  have items : ∀ (l : List Bytes) (b : Bytes), encSctItems genLim l = some b → encSctItems rfcLim l = some b := by
+    intro l
+    induction l with
+    | nil => intro b hb; simpa [encSctItems] using hb
+    | cons s rest ih =>
+      intro b hb
+      simp only [encSctItems] at hb ⊢
+      split at hb
+      · simp at hb
+      · rename_i hc
+        cases hr : encSctItems genLim rest with
+        | none => simp [hr] at hb
+        | some r =>
+          simp only [hr] at hb
+          have hc' : ¬ (s.length < rfcLim.itemMin ∨ rfcLim.itemMax < s.length) := by
+            simp only [rfcLim]; omega
+          simp only [hc', if_false, ih r hr]
+          exact hb
+  simp only [sctExtValue, marshalSctList] at h ⊢
+  cases he : encSctItems genLim l with
+  | none => simp [he] at h
+  | some b =>
+    simp only [he] at h
+    rw [items l b he]
+    split at h
+    · simp at h
+    · rename_i hc
+      have hc' : ¬ (b.length < rfcLim.listMin ∨ rfcLim.listMax < b.length) := by
+        simp only [rfcLim]; omega
+      simp only [hc', if_false]
+      exact h
 
 /-- an empty list and an empty SCT cannot be embedded (`minlen:1` on both levels) -/
 theorem sctlist_min (l : List Bytes) (h : l = [] ∨ [] ∈ l) : sctExtValue genLim l = none := by
